@@ -208,6 +208,7 @@ impl Compiler {
         // If anything goes wrong, we forget everything about this program: a retained
         // compiler (as used by the REPL) should be able to continue as if nothing happened
         let num_globals = self.symbols.num_globals();
+        let num_constants = self.constants.len();
 
         // Functions are values that refer to a position in the instructions, and they can live on in global
         // variables. So the instructions of earlier programs stay where they are and this program is added after them.
@@ -221,6 +222,14 @@ impl Compiler {
                 self.loop_contexts.clear();
                 self.pending_values = 0;
                 self.symbols.rollback(num_globals);
+                // the constants of the program that failed go as well (nothing refers to them, and the pool is
+                // finite: a long session of refused lines would fill it up)
+                for c in self.constants.drain(num_constants..) {
+                    if c.is_heap_allocated() {
+                        self.gc.untrace(c);
+                        c.free();
+                    }
+                }
                 return Err(e);
             }
         }
